@@ -31,8 +31,6 @@ structure Ops where
   convert : ArgTy → V → Except Err Unit
   /-- body of a builtin whose source never reaches the mode -/
   pureBody : String → String → List V → Except Err V
-  /-- body of a builtin whose source reaches the mode and that is not modelled by hand -/
-  compBody : String → String → List V → Comp V
   /-- `/ // % **` on operands the model has no value for -/
   binop : String → V → V → Except Err V
   /-- `Value::call_method` on something that is not the loop object -/
@@ -171,17 +169,101 @@ def tryIterItems (v : V) (wrapErr : Bool) : Comp (List V) :=
   let c : Comp (List V) := Comp.bind (Comp.chk (.tryIter v.kind)) (fun _ => Comp.ofExcept (V.iterItems v))
   if wrapErr then c.mapErr (fun e => match e with | .unsupported w => .unsupported w | _ => .invalidOperation) else c
 
-/-- bodies of the filters the driver computes; `none` = not modelled by hand (for this arity) -/
-def filterBody (name : String) (args : List V) : Option (Comp V) :=
-  if args.any V.isOpaque then Option.none else
+/-- `Value::get_path` (`a.b.0`): an undefined on the way is an `UndefinedError` in every mode -/
+def getPath (v : V) (path : String) : Except Err V :=
+  (path.splitOn ".").foldlM (fun cur part =>
+    if V.isUndefined cur then .error .undefinedError else
+    match part.toNat? with
+    | some i => match V.getItem cur (.int i) with
+      | .ok x => .ok (x.getD .undef)
+      | .error e => .error e
+    | Option.none => .ok ((V.getAttr cur part).getD .undef)) v
+
+/-- a nested call of another builtin (`test.call(state, ..)` / `filter.call(state, ..)`) -/
+abbrev Nested := String → String → List V → Option (Comp V)
+
+def optName : V → Option String
+  | .undef | .silent | .none => Option.none
+  | .str s => some s
+  | v => some (V.display v)
+
+/-- `select_or_reject`: look the test up, `try_iter(value)`, then per item the attribute path and
+    the test (a nested builtin call) or the truth value -/
+def selectItems (nested : Nested) (invert : Bool) (attr : Option String) (tname : Option String) (targs : List V) :
+    List V → Comp (List V)
+  | [] => .pure []
+  | x :: r =>
+    Comp.bind (match attr with
+      | some a => Comp.ofExcept (getPath x a)
+      | Option.none => .pure x) (fun tv =>
+    Comp.bind (match tname with
+      | some n => (match nested "test" n (tv :: targs) with
+        | some c => Comp.bind c (fun v => .pure v.isTrue)
+        | Option.none => .fail (.other "UnknownTest"))
+      | Option.none => .pure tv.isTrue) (fun passed =>
+    Comp.bind (selectItems nested invert attr tname targs r) (fun ys =>
+      .pure (if passed != invert then x :: ys else ys))))
+
+def selectC (nested : Nested) (invert : Bool) (attr : Option String) (v : V) (tname : Option String) (targs : List V) : Comp V :=
+  if (match tname with | some n => (sigOf "test" n).isNone | Option.none => false) then .fail (.other "UnknownTest") else
+  Comp.bind (Comp.bind (Comp.chk (.tryIter v.kind)) (fun _ => Comp.ofExcept (V.iterItems v))) (fun xs =>
+  Comp.bind (selectItems nested invert attr tname targs xs) (fun ys => .pure (.seq ys)))
+
+def mapItems (nested : Nested) (fname : String) (fargs : List V) : List V → Comp (List V)
+  | [] => .pure []
+  | x :: r =>
+    Comp.bind (match nested "filter" fname (x :: fargs) with
+      | some c => c
+      | Option.none => .fail (.other "UnknownFilter")) (fun y =>
+    Comp.bind (mapItems nested fname fargs r) (fun ys => .pure (y :: ys)))
+
+def mapAttr (attr dflt : V) (x : V) : Except Err V :=
+  let sub := match attr with
+    | .str p => getPath x p
+    | a => if x.isUndefined then .error .undefinedError else
+           match V.getItem x a with
+           | .ok y => .ok (y.getD .undef)
+           | .error e => .error e
+  match sub with
+  | .ok a => .ok (if a.isUndefined then dflt else a)
+  | .error e => if dflt.isUndefined then .error e else .ok dflt
+
+/-- filters.rs `map`: attribute mapping (`attribute=`, `default=`) or filter mapping; `try_iter(value)`
+    in both branches, after the filter was looked up -/
+def mapC (nested : Nested) (v : V) (rest : List V) : Comp V :=
+  let (pos, kw) : List V × List (String × V) :=
+    match rest.getLast? with
+    | some (.kwargs kvs) => (rest.dropLast, kvs)
+    | _ => (rest, [])
+  let iter : Comp (List V) := Comp.bind (Comp.chk (.tryIter v.kind)) (fun _ => Comp.ofExcept (V.iterItems v))
+  match (V.mapGet kw "attribute").bind (fun a => match a with | .undef | .silent | .none => Option.none | a => some a) with
+  | some attr =>
+    if !pos.isEmpty then .fail (.other "TooManyArguments") else
+    Comp.bind iter (fun xs => Comp.bind (Comp.ofExcept (xs.mapM (mapAttr attr ((V.mapGet kw "default").getD .undef)))) (fun ys =>
+      if kw.any (fun p => p.1 != "attribute" && p.1 != "default") then .fail (.other "TooManyArguments") else .pure (.seq ys)))
+  | Option.none =>
+    match pos with
+    | [] => .fail .invalidOperation
+    | .str fname :: fargs =>
+      if (sigOf "filter" fname).isNone then .fail (.other "UnknownFilter") else
+      Comp.bind iter (fun xs => Comp.bind (mapItems nested fname fargs xs) (fun ys => .pure (.seq ys)))
+    | _ :: _ => .fail .invalidOperation
+
+/-- filters.rs `default`: `is_true(lax)` on the third argument, nothing else -/
+def defaultBody : List V → Comp V
+  | [v] => .pure (if v.isUndefined then .str "" else v)
+  | [v, o] => .pure (if v.isUndefined then o else v)
+  | [v, o, lax] =>
+      Comp.bind (Comp.chk (.isTrue lax.kind)) (fun _ =>
+        .pure (if v.isUndefined || (lax.isTrue && !v.isTrue) then o else v))
+  | _ => .fail (.other "TooManyArguments")
+
+/-- bodies of the filters: concrete where the driver computes the value; for the remaining filters
+    whose source reaches the mode, the helper questions in source order followed by the abstract
+    mode-independent rest (`Ops.pureBody`); `none` = a filter whose source never reaches the mode
+    and that is not modelled by hand -/
+def filterBodyRest (ops : Ops) (nested : Nested) (name : String) (args : List V) : Option (Comp V) :=
   match name, args with
-  -- filters.rs `default`: `is_true(lax)` on the third argument, nothing else
-  | "default", [v] | "d", [v] => some (.pure (if v.isUndefined then .str "" else v))
-  | "default", [v, o] | "d", [v, o] => some (.pure (if v.isUndefined then o else v))
-  | "default", [v, o, lax] | "d", [v, o, lax] =>
-      some (Comp.bind (Comp.chk (.isTrue lax.kind)) (fun _ =>
-        .pure (if v.isUndefined || (lax.isTrue && !v.isTrue) then o else v)))
-  | "default", _ | "d", _ => some (.fail (.other "TooManyArguments"))
   -- `int`: assert_value_not_undefined only on undefined / none
   | "int", [v] =>
       some (match v with
@@ -240,13 +322,37 @@ def filterBody (name : String) (args : List V) : Option (Comp V) :=
       some (match V.iterItems v with
       | .ok xs => .pure (.str (joinWith (match sep with | .undef | .silent | .none => "" | x => toStringCow x) xs))
       | .error _ => .fail .invalidOperation)
+  -- the remaining filters whose source reaches the mode: their questions, then the abstract rest
+  | "float", v :: _ =>
+      some (match v with
+      | .undef | .silent | .none =>
+          Comp.bind (Comp.chk (.assertNotUndef v.kind)) (fun _ => Comp.ofExcept (ops.pureBody "filter" "float" args))
+      | _ => Comp.ofExcept (ops.pureBody "filter" "float" args))
+  | "sort", v :: rest =>
+      some (Comp.bind (tryIterItems v true) (fun xs => Comp.ofExcept (ops.pureBody "filter" "sort" (.seq xs :: rest))))
+  | "unique", v :: rest =>
+      some (Comp.bind (tryIterItems v false) (fun xs => Comp.ofExcept (ops.pureBody "filter" "unique" (.seq xs :: rest))))
+  | "batch", v :: rest =>
+      some (Comp.bind (tryIterItems v false) (fun xs => Comp.ofExcept (ops.pureBody "filter" "batch" (.seq xs :: rest))))
+  | "slice", v :: rest =>
+      some (Comp.bind (tryIterItems v false) (fun xs => Comp.ofExcept (ops.pureBody "filter" "slice" (.seq xs :: rest))))
+  | "select", v :: rest => some (selectC nested false Option.none v ((rest.head?).bind optName) (rest.drop 1))
+  | "reject", v :: rest => some (selectC nested true Option.none v ((rest.head?).bind optName) (rest.drop 1))
+  | "selectattr", v :: a :: rest => some (selectC nested false (some (toStringCow a)) v ((rest.head?).bind optName) (rest.drop 1))
+  | "rejectattr", v :: a :: rest => some (selectC nested true (some (toStringCow a)) v ((rest.head?).bind optName) (rest.drop 1))
+  | "map", v :: rest => some (mapC nested v rest)
+  -- `.format(state)` only ever formats strings here (never an undefined), and `escape` goes through
+  -- `Environment::format` only for custom auto-escape formats: no question without auto-escaping
+  | "escape", _ | "e", _ | "replace", _ | "format", _ => some (Comp.ofExcept (ops.pureBody "filter" name args))
   | _, _ => Option.none
 
-def testBody (name : String) (args : List V) : Option (Comp V) :=
-  if args.any V.isOpaque then Option.none else
+def filterBody (ops : Ops) (nested : Nested) (name : String) (args : List V) : Option (Comp V) :=
+  if args.any V.isObject then some (.fail (.unsupported "opaque argument"))
+  else if name == "default" || name == "d" then some (defaultBody args)
+  else filterBodyRest ops nested name args
+
+def testBodyRest (name : String) (args : List V) : Option (Comp V) :=
   match name, args with
-  | "defined", [v] => some (.pure (.bool (!v.isUndefined)))
-  | "undefined", [v] => some (.pure (.bool v.isUndefined))
   | "none", [v] => some (.pure (.bool (match v with | .none => true | _ => false)))
   | "true", [v] => some (.pure (.bool (match v with | .bool true => true | _ => false)))
   | "false", [v] => some (.pure (.bool (match v with | .bool false => true | _ => false)))
@@ -346,23 +452,35 @@ def binopExec (op : String) (a b : V) : Except Err V :=
     else .error (.unsupported ("operator " ++ op ++ " (float result)"))
   | _, _ => .error .invalidOperation
 
-def handBody (kind name : String) (args : List V) : Option (Comp V) :=
-  if kind == "filter" then filterBody name args
+def testBody (name : String) (args : List V) : Option (Comp V) :=
+  if args.any V.isObject then some (.fail (.unsupported "opaque argument"))
+  else if name == "defined" then (match args with | [v] => some (.pure (.bool (!v.isUndefined))) | _ => Option.none)
+  else if name == "undefined" then (match args with | [v] => some (.pure (.bool v.isUndefined)) | _ => Option.none)
+  else testBodyRest name args
+
+def handBody (ops : Ops) (nested : Nested) (kind name : String) (args : List V) : Option (Comp V) :=
+  if kind == "filter" then filterBody ops nested name args
   else if kind == "test" then testBody name args
   else functionBody name args
 
-/-- **a call of a registered builtin**: conversion layer from the extracted signature, then the
-    body (hand model, else the abstract operation: a pure function when the source never reaches
-    the mode, a `Comp` otherwise) -/
-def callBuiltin (ops : Ops) (kind name : String) (args : List V) : Option (Comp V) :=
-  match sigOf kind name with
-  | Option.none => Option.none
-  | some (sig, reach) =>
-    some (Comp.bind (convCall ops sig args) (fun _ =>
-      match handBody kind name args with
-      | some c => c
-      | Option.none =>
-        if reach.isEmpty then Comp.ofExcept (ops.pureBody kind name args) else ops.compBody kind name args))
+/-- **a call of a registered builtin** (nested calls at most `fuel` deep): the conversion layer
+    from the extracted signature, then the body — the hand model (concrete, or the questions of a
+    mode-reaching builtin followed by its abstract rest), else, for a builtin whose source never
+    reaches the mode, the abstract pure function -/
+def callBuiltinN (ops : Ops) : Nat → String → String → List V → Option (Comp V)
+  | 0, _, _, _ => some (.fail (.unsupported "nested builtin calls too deep"))
+  | fuel + 1, kind, name, args =>
+    match sigOf kind name with
+    | Option.none => Option.none
+    | some (sig, reach) =>
+      some (Comp.bind (convCall ops sig args) (fun _ =>
+        match handBody ops (callBuiltinN ops fuel) kind name args with
+        | some c => c
+        | Option.none =>
+          if reach.isEmpty then Comp.ofExcept (ops.pureBody kind name args)
+          else .fail (.unsupported ("call shape of the mode-reaching " ++ kind ++ " " ++ name))))
+
+def callBuiltin (ops : Ops) (kind name : String) (args : List V) : Option (Comp V) := callBuiltinN ops 6 kind name args
 
 /-- does the extracted signature consist of known argument types? -/
 def sigKnown (kind name : String) : Bool :=
@@ -374,7 +492,6 @@ def sigKnown (kind name : String) : Bool :=
 def Ops.exec : Ops where
   convert := convExec
   pureBody := fun kind name _ => .error (.unsupported (kind ++ " " ++ name))
-  compBody := fun kind name _ => .fail (.unsupported (kind ++ " " ++ name))
   binop := binopExec
   method := fun name recv _ => if recv.isOpaque then .error (.unsupported ("method " ++ name)) else .error (.other "UnknownMethod")
   callValue := fun f _ => if f.isOpaque then .error (.unsupported "call of a value") else .error .invalidOperation
@@ -383,7 +500,6 @@ def Ops.exec : Ops where
 def Ops.convOnly : Ops where
   convert := fun _ _ => .ok ()
   pureBody := fun _ _ _ => .ok .none
-  compBody := fun _ _ _ => .pure .none
   binop := fun _ _ _ => .ok .none
   method := fun _ _ _ => .ok .none
   callValue := fun _ _ => .ok .none
